@@ -1,25 +1,23 @@
 CONSTANTS
-  MaxDepth = 2
+  MaxDepth = 1
   Configs <- ConfigsThorough
   ExtraNew <- ExtraNewThorough
+  PropSet <- PropSetThorough
   UnitLimit = 30
+  ActLimit = 64
 SPECIFICATION Spec
 CHECK_DEADLOCK FALSE
 INVARIANT TypeOK
-INVARIANT L_AdmixMarginal
-INVARIANT L_AdmixMean
-INVARIANT L_AdmixHat
+INVARIANT L_Admix
 INVARIANT L_AdmixRelabel
 INVARIANT L_SplitCopy
 INVARIANT L_Split1D
 INVARIANT L_PulseZero
-INVARIANT L_PulseOthers
-INVARIANT L_PulseHat
-INVARIANT L_PulseReplace
+INVARIANT L_Pulse
 INVARIANT L_PulseRelabel
 INVARIANT L_ReorderIsPermutation
 INVARIANT L_ReorderCompose
 INVARIANT L_RemoveReorder
 INVARIANT L_RemoveFubini
+INVARIANT L_RemoveIsTrapz
 INVARIANT L_Filter
-INVARIANT L_Mass
